@@ -94,3 +94,39 @@ Definition residual (es : list (node * node * nat)) : graph :=
 Example ex_run : option_map snd (reconstruct (residual ex_edges) 5%N)
   = Some [5; 0; 1; 2; 1; 2; 3; 2; 3; 2; 1; 1; 1; 1; 4; 6]%N.
 Proof. vm_compute. reflexivity. Qed.
+
+(* ------------------------------------------------------------------------------------------
+   get_solution_walks for one layer: residual multigraph from the (rounded) solver values,
+   reconstruction, stripping of source and sink.  Values arrive as rationals; Python's round()
+   is round-half-to-even. *)
+From Coq Require Import ZArith QArith.
+
+Definition round_half_even (q : Q) : Z :=
+  let n := Qnum q in let d := Zpos (Qden q) in
+  let fl := (n / d)%Z in
+  let r2 := (2 * (n - fl * d))%Z in          (* twice the remainder, compared with d *)
+  if (r2 <? d)%Z then fl
+  else if (d <? r2)%Z then (fl + 1)%Z
+  else if Z.even fl then fl else (fl + 1)%Z.
+
+Definition residual_q (es : list (edge * Q)) : graph :=
+  flat_map (fun '(e, q) => repeat e (Z.to_nat (round_half_even q))) es.
+
+Definition last_node (w : list node) (d : node) : node := last w d.
+
+(* Python: if len(walk) >= 2 and walk[0] == s and walk[-1] == t: walk[1:-1]
+           elif walk == [s]: []   else: walk *)
+Definition strip_st (s t : node) (w : list node) : list node :=
+  match w with
+  | a :: (_ :: _) as r =>
+      if ((a =? s) && (last r a =? t))%N then removelast r else w
+  | [a] => if (a =? s)%N then [] else w
+  | [] => w
+  end.
+
+(* result: (number of residual edges left unused, walk handed to the user); None = out of fuel *)
+Definition solution_walk (es : list (edge * Q)) (s t : node) : option (nat * list node) :=
+  match reconstruct (residual_q es) s with
+  | None => None
+  | Some (g', w) => Some (length g', strip_st s t w)
+  end.
